@@ -106,7 +106,7 @@ def _impl_header(fw, im):
 
 
 def fn_into_verus(ctx, fw, qual, mode="V", ret=None, requires=(), ensures=(), decreases=None, attrs=(), tags=(),
-                  unit=None, hoisted=False, returns=None, opens_invariants=None, no_unwind=False):
+                  unit=None, hoisted=False, returns=None, opens_invariants=None, no_unwind=False, no_fallback=False):
     """move function `qual` into a verus!{} block and attach its contract.
     requires: list of text; ensures: list of (text, tags) or text; decreases: text"""
     fn = fw.fn(qual)
@@ -114,7 +114,7 @@ def fn_into_verus(ctx, fw, qual, mode="V", ret=None, requires=(), ensures=(), de
     ctx.specs.append({"recipe": ctx.current_recipe, "kind": "fn", "file": fw.rel, "qual": qual, "mode": mode, "ret": ret,
                       "requires": [r for r in requires], "ensures": [([c, sorted(set(tags) - {"C12"}), None] if isinstance(c, str) else [c[0], sorted(c[1]), (c[2] if len(c) > 2 else None)]) for c in ensures],
                       "decreases": decreases, "attrs": list(attrs), "tags": sorted(tags), "unit": unit, "hoisted": hoisted,
-                      "returns": returns, "no_unwind": no_unwind})
+                      "returns": returns, "no_unwind": no_unwind, "no_fallback": no_fallback})
     im = fw._impl_of(fn)
     pre_attrs = "".join("#[%s]\n" % a for a in attrs)
     if mode == "T":
@@ -487,7 +487,7 @@ def from_impl_into_verus(ctx, fw, src_ty, dst_ty, spec_expr, tags=(), trusted=Fa
 
 # ----------------------------------------------------------------------------- W5 split / outline
 def outline(ctx, fw, fnnode, first, last, name, params, args, outs=(), types=(), kind="try", mode="V",
-            requires=(), ensures=(), tags=(), unit=None, ret="res", target=None, attrs=(), decreases=None, generics="", method=None):
+            requires=(), ensures=(), tags=(), unit=None, ret="res", target=None, attrs=(), decreases=None, generics="", method=None, recv="self", call_pre=""):
     """W5: the contiguous statement range first..last of `fnnode` becomes a function of its own.
       kind 'plain'   : fn name(params) -> (T..)                         { STMTS (o..) }          call: let (o..) = name(args);
       kind 'try'     : fn name(params) -> anyhow::Result<(T..)>          { STMTS Ok((o..)) }      call: let (o..) = name(args)?;
@@ -522,7 +522,7 @@ def outline(ctx, fw, fnnode, first, last, name, params, args, outs=(), types=(),
             raise WeaveError("%s: outline %s: method segment outside an impl" % (fw.rel, name))
         hdr = _impl_header(fw, im)
         target = im["brace_close"][0]
-        call = call.replace("%s(" % name, "self.%s(" % name, 1)
+        call = call.replace("%s(" % name, "%s.%s(" % (recv, name), 1)
         pre = "\n}\nverus!{\n%s {\n%sfn %s%s(%s%s) -> (%s: %s)\n" % (hdr, pre_attrs, name, generics, method, (", " + params) if params else "", ret, rty)
         suf = "\n    %s\n}\n}\n} // verus!\n%s {\n" % (tail, hdr)
     else:
@@ -533,7 +533,7 @@ def outline(ctx, fw, fnnode, first, last, name, params, args, outs=(), types=(),
     unit = unit or "%s::%s" % (modpath(fw.rel), name)
     ctx.specs.append({"recipe": ctx.current_recipe, "kind": "segment", "file": fw.rel, "unit": unit, "host": fw.fn_qualname(fnnode), "mode": mode,
                       "tags": sorted(set(tags) | {t for c in ensures if not isinstance(c, str) for t in c[1]})})
-    fw.move(s, e, target, pre=pre, suf=suf, rule="W5", what="segment %s of %s" % (name, fw.fn_qualname(fnnode)), left=call)
+    fw.move(s, e, target, pre=pre, suf=suf, rule="W5", what="segment %s of %s" % (name, fw.fn_qualname(fnnode)), left=call_pre + call)
     utags = set(tags)
     ftags = utags - {"C12"}
     if requires:
@@ -777,6 +777,23 @@ def self_reborrow(fw, span):
         fw.replace(a, b, "&mut *self" if m.group(1) else "&*self", "W5-R-self-reborrow")
 
 
+def mut_self_to_local(fw, fnnode, local, stmts):
+    """R-mut-self (part of W5 for `fn f(mut self)`, which Verus rejects): the parameter becomes `self`, the body
+    starts with `let mut LOCAL = self;`, and `self` is spelled LOCAL in the statements `stmts` that stay in the
+    host (the segments that were outlined are `&mut self` methods and are called on LOCAL).  Alpha-renaming only."""
+    import re
+    s0, e0 = fnnode["sig_span"]
+    m = re.search(rb"\bmut\s+self\b", fw.src[s0:e0])
+    if not m:
+        raise WeaveError("%s: R-mut-self: `%s` does not take `mut self`" % (fw.rel, fw.fn_qualname(fnnode)))
+    fw.replace(s0 + m.start(), s0 + m.end(), "self", "W5-R-mut-self")
+    fw.insert(fnnode["block_span"][0] + 1, "\n        let mut %s = self;\n" % local, rule="W5-R-mut-self")
+    for st in stmts:
+        a, b = st["span"]
+        for mm in re.finditer(rb"\bself\b", fw.src[a:b]):
+            fw.replace(a + mm.start(), a + mm.end(), local, "W5-R-mut-self")
+
+
 def box_as_ref(fw, call_node):
     """R-std: `b.as_ref()` with `b: &Box<T>` -> `&**b` (the definition of `<Box<T> as AsRef<T>>::as_ref`; the
     allocator parameter of Box makes the method impossible to name in an assume_specification on stable)"""
@@ -957,7 +974,7 @@ def apply_fallback(ctx, W, recipe, specs, reason):
         fw = W.file(sp["file"])
         if sp["kind"] == "from_impl":
             from_impl_into_verus(ctx, fw, sp["src_ty"], sp["dst_ty"], sp["spec_expr"], tags=sp["tags"], trusted=True)
-        elif sp["kind"] == "fn" and not sp["hoisted"]:
+        elif sp["kind"] == "fn" and not sp["hoisted"] and not sp.get("no_fallback"):
             plumbing_once(fw)
             fn_into_verus(ctx, fw, sp["qual"], mode="T", ret=sp["ret"], requires=sp["requires"],
                           ensures=[(c[0], tuple(c[1]), c[2]) if c[2] else (c[0], tuple(c[1])) for c in sp["ensures"]],
